@@ -406,7 +406,9 @@ pub fn gen_frame(r: &mut Rng, target: &str, want: usize) -> Vec<u8> {
 }
 
 fn gen_len(r: &mut Rng, step: usize) -> usize {
-    match r.below(8) {
+    match r.below(9) {
+        // now and then a frame that needs many growth steps
+        8 => r.range(17 * step, 40 * step).min(crate::buffer_max() / 3),
         0 => 0,
         1 => r.range(0, 40),
         2 | 3 => {
